@@ -37,6 +37,9 @@ def scenarios(tier):
     for pat in ('obedient', 'stubborn'):
         out.append(Scenario('ks', k='none', pat=pat, n=2, w=0.25, probe=False))
     out = [s_ for s_ in out if not (s_.p.get('k') == 'kill-3s' and s_.p.get('pat') != 'stubborn')]
+    # a watcher that does not respawn and has lost a worker: active, one short
+    for pat in ('obedient', 'stubborn'):
+        out.append(Scenario('ks', k='die-then-check', pat=pat, n=2, w=0.0, probe=False, respawn=False))
     # on-demand watcher: a worker dies / incr after the first connection, then the next socket event
     for tail in ('die', 'incr'):
         out.append(Scenario('ondemand', tail=tail, n=2, nodet=True))
@@ -70,6 +73,7 @@ def s_menu(world):
                 Req('reload', label='reload-seq(a%s)' % suf, name='a', sequential=True, **kw),
                 Req('decr', label='decr(a%s)' % suf, name='a', **kw),
                 Req('incr', label='incr(a%s)' % suf, name='a', **kw),
+                Req('start', label='start(a%s)' % suf, name='a', **kw),
                 Req('rm', label='rm(a%s)' % suf, name='a', **kw),
                 Req('quit', label='quit(%s)' % suf, **kw),
                 Req('set', label='set(a.np=1%s)' % suf, name='a', options={'numprocesses': 1}, **kw)]
@@ -93,7 +97,7 @@ def run(scn, ch):
     if scn.name == 'ondemand':
         return _run_ondemand(scn, ch, res)
     world = World(ch, [WSpec('a', numprocesses=scn.n, graceful_timeout=G, warmup_delay=scn.w,
-                             behaviours=pattern(scn.pat)),
+                             behaviours=pattern(scn.pat), respawn=scn.p.get('respawn', True)),
                        WSpec('b', numprocesses=1, graceful_timeout=G)])
     world.s_records = []
     if scn.name == 'probe':
@@ -120,6 +124,10 @@ def run(scn, ch):
             gmax = 1.0
         elif k == 'signal':
             world.request('signal', name='a', signum=10)
+        elif k == 'die-then-check':
+            # one worker exits and a periodic check has collected it (a respawn=False watcher then stays one short)
+            world.die(pids[0], EXIT1)
+            world.settle(1)
         win.open = True
         # the window: S (and deaths) may arrive at any loop-iteration boundary of the next 1.3 s
         world.run(horizon=1.3, menu=win.menu)
